@@ -12,10 +12,11 @@ def sz(ctx, quick, thorough):
 SMALL_CFG = "INIT SInit\nNEXT SNext\nINVARIANT EmitInput\nCHECK_DEADLOCK FALSE\n"
 
 
-def small_scope(ctx, chk, quick_n):
+def small_scope(ctx, chk, quick_n, init="SInit"):
     """Exhaustive small scope (spec/SmallScope.tla): TLC enumerates every triangle x triangle operation and every
-    quadrilateral self-union on the 3x3 lattice; quick replays a seeded sample, thorough all of them."""
-    hist, n = generate_histories(ctx, "SmallScope", SMALL_CFG)
+    quadrilateral self-union on the 3x3 lattice (init SInit), or every 2/3-point open line x clip triangle
+    (SInitOpen); quick replays a seeded sample, thorough all of them."""
+    hist, n = generate_histories(ctx, "SmallScope", SMALL_CFG.replace("SInit", init))
     if ctx.tier == "quick":
         done = replay_histories(ctx, hist, "replay-small", limit=quick_n, seed_shuffle=ctx.seed, event_triage=True,
                                 extra_args=["-chk", chk])
@@ -118,6 +119,7 @@ def run_C04(ctx):
 
 def run_C09(ctx):
     drive_and_validate(ctx, [{"driver": "C09", "n": sz(ctx, 1600, 60000), "probes": 40}])
+    small_scope(ctx, "C09", 6000, init="SInitOpen")
 
 
 def run_C05(ctx):
